@@ -34,6 +34,44 @@ func verifC18CStr(n int) {
 func VerifC18CStr0() { verifC18CStr(0) }
 func VerifC18CStr3() { verifC18CStr(3) }
 
+// Decode-then-encode on arbitrary bytes: whatever the decoder accepts re-encodes to exactly the
+// bytes it consumed (a value is never silently shortened or completed).
+func verifC18CStrBytes(n int) {
+	b := verifNondetBytes("raw", n)
+	r := bytes.NewBuffer(b)
+	var v ByteSizedCStr
+	if v.Unmarshal(r) != nil {
+		verifReach("refused")
+		return
+	}
+	consumed := n - r.Len()
+	w := bytes.NewBuffer(nil)
+	verifAssert(v.Marshal(w) == nil, "an accepted byte-sized string marshals")
+	verifAssert(bytes.Equal(w.Bytes(), b[:consumed]), "an accepted byte-sized string re-encodes to the bytes that were read")
+	verifObserve("consumed", consumed)
+	verifReach("accepted")
+}
+
+func VerifC18CStrBytes5() { verifC18CStrBytes(5) }
+
+func verifC18ArrayBytes(n int) {
+	b := verifNondetBytes("raw", n)
+	r := bytes.NewBuffer(b)
+	var v Uint32SizedArray
+	if v.Unmarshal(r) != nil {
+		verifReach("refused")
+		return
+	}
+	consumed := n - r.Len()
+	w := bytes.NewBuffer(nil)
+	verifAssert(v.Marshal(w) == nil, "an accepted uint32-sized array marshals")
+	verifAssert(bytes.Equal(w.Bytes(), b[:consumed]), "an accepted uint32-sized array re-encodes to the bytes that were read")
+	verifObserve("consumed", consumed)
+	verifReach("accepted")
+}
+
+func VerifC18ArrayBytes7() { verifC18ArrayBytes(7) }
+
 func verifC18Array(n int) {
 	v := Uint32SizedArray{Data: verifNondetBytes("a", n)}
 	w := bytes.NewBuffer(nil)
